@@ -119,6 +119,8 @@ class Renderer:
               f"range({s[2]}, {s[3]})" if s[4] == 1 else f"range({s[2]}, {s[3]}, {s[4]})")
         out.append(f"{pad}for {s[1]} in {rng}:")
         out.extend(self.stmts(s[5], kind, ind + 1) or [pad + "  pass"])
+      elif k == "call":
+        out.append(f"{pad}{s[1]}()")
       else:
         raise ValueError(k)
     return out
@@ -186,6 +188,9 @@ class Renderer:
       deco = {"comb": "@update", "ff": "@update_ff", "once": "@update_once"}[b["kind"]]
       lines = [f"    {deco}", f"    def {b['name']}():"] + (self.stmts(b["stmts"], b["kind"], 3) or ["      pass"])
       blocks.append(lines)
+    for f in c.get("funcs", []):                 # helper functions may be defined before or after their callers
+      lines = ["    @s.func", f"    def {f['name']}():"] + (self.stmts(f["stmts"], "comb", 3) or ["      pass"])
+      blocks.insert(self.rng.randrange(len(blocks) + 1) if self.v.get("perm_blocks") else (0 if f.get("early") else len(blocks)), lines)
     if self.v.get("perm_stmts"):
       self.rng.shuffle(body)
     if self.v.get("perm_blocks"):
